@@ -234,9 +234,11 @@ def main() -> int:
                 pending.add(ex.submit(run_task, s))
             if not pending:
                 break
-            done, pending = wait(pending, return_when=FIRST_COMPLETED, timeout=300)
+            # (a thorough-tier task can be a sweep of hundreds of runs; on a loaded machine none of them may finish for minutes)
+            stall_s = 300 if tier == "quick" else 1500
+            done, pending = wait(pending, return_when=FIRST_COMPLETED, timeout=stall_s)
             if not done:
-                errors.append("worker pool stalled for 300 s")
+                errors.append(f"worker pool stalled for {stall_s} s")
                 break
             for f in done:
                 try:
